@@ -156,9 +156,12 @@ def spec_random(ck):
             continue
         gets = [e for e in s.trace if e[0] == 'connectors.get']
         ex.prove(s, 'C17/random/exactly-one-lookup', len(gets) == 1)
-        if gets:
+        picks = [e[1] for e in s.trace if e[0] == 'member-index']
+        # however the member is drawn (SliceRandom::choose, gen_range + index, ...): one draw, inside the list, and that member is used
+        ex.prove(s, 'C17/random/exactly-one-member-drawn-from-the-list', z3.And(z3.BoolVal(len(picks) == 1), z3.ULT(picks[0], m['n'])) if len(picks) == 1 else z3.BoolVal(False))
+        if gets and len(picks) == 1:
             k = gets[0][1]
-            exp = m['members'].at(pick)
+            exp = m['members'].at(picks[0])
             j = z3.BitVec(fresh_name('j'), 64)
             ex.prove(s, 'C17/random/selected-upstream-is-the-chosen-member', z3.And(k.len == exp.len, z3.Implies(z3.ULT(j, k.len), k.at(j) == exp.at(j))))
     ck.absorb(ex, 'LoadBalanceConnector::random', finals)
@@ -410,89 +413,117 @@ def spec_lb_member_graph(ck):
     ck.plans.append(lb_graph_replay_plan)
     fields = ck.si.structs.get('LoadBalanceConnector', ['name', 'connectors', 'algorithm', 'idx', 'hash_by'])
     NB = len(GRAPH_NAMES)
+    import itertools
+
+    def run_graphs(n0, n1, fixed, budget):
+        """one symbolic run over all member choices (fixed=None), or one run per concrete choice"""
+        ex = ck.engine(loop_bound=14)
+        ex.benign_havoc = re.compile(BENIGN.pattern + r'|drop')
+        ex.iter_bound = 4
+        ex.eq_bound = 4
+        if budget:
+            ex.max_paths = budget
+            import time as _t
+            ex.deadline = _t.time() + 20
+        st = State()
+        sel = {}
+        names = iter(fixed) if fixed is not None else None
+
+        def pick(hint):
+            if names is not None:
+                idx = next(names)
+                sel[hint] = BV(idx, 64)
+                return Bytes.from_py(GRAPH_NAMES[idx], 'string')
+            k = z3.BitVec(hint, 64)
+            ex.assume(st, z3.ULT(k, BV(NB, 64)))
+
+            def at(j, k=k):
+                r = BV(0, 8)
+                for pos in range(3):
+                    ch = BV(GRAPH_NAMES[-1][pos], 8)
+                    for i in range(NB - 1):
+                        ch = z3.If(k == BV(i, 64), BV(GRAPH_NAMES[i][pos], 8), ch)
+                    r = z3.If(j == BV(pos, 64), ch, r)
+                return simp(r)
+            sel[hint] = k
+            return Bytes(at, BV(3, 64), 'string')
+        objs = []
+        for b, cnt in ((0, n0), (1, n1)):
+            ms = [pick('lb%d_member%d' % (b, i)) for i in range(cnt)]
+            objs.append(Agg('LoadBalanceConnector', {fields.index('name'): Bytes.from_py(GRAPH_NAMES[b], 'string'),
+                                                     fields.index('connectors'): SeqV.from_items(ms, 'String', 'vec'),
+                                                     fields.index('idx'): Agg('Atomic', {0: Int(BV(0, 64), 64)}),
+                                                     fields.index('hash_by'): C.mk_option(ex, None)}))
+        objs.append(Agg('DirectConnector', {}))
+        # Arc<dyn Connector> values of the map: pointer to pointer to object
+        arcs = [st.alloc(Ref(st.alloc(o), ())) for o in objs]
+
+        def contains_key(ctx):
+            k = ctx.ex.deref(ctx.st, ctx.args[1])
+            return Bool(simp(z3.Or([_name_eq(k, nm) for nm in GRAPH_NAMES])))
+
+        def map_get(ctx):
+            k = ctx.ex.deref(ctx.st, ctx.args[1])
+            outs = []
+            rest = []
+            for i, nm in enumerate(GRAPH_NAMES):
+                c = simp(_name_eq(k, nm))
+                t, f = ctx.ex.branch(ctx.st, c)
+                if t:
+                    s2 = ctx.st.fork()
+                    ctx.ex.assume(s2, c)
+                    outs.append((s2, C.mk_option(ctx.ex, Ref(arcs[i], ()))))
+                rest.append(z3.Not(c))
+            t, f = ctx.ex.branch(ctx.st, z3.And(rest))
+            if t:
+                ctx.ex.assume(ctx.st, z3.And(rest))
+                outs.append((ctx.st, C.mk_option(ctx.ex, None)))
+            return outs
+        ex.overrides.append((re.compile(r'^HashMap::<(?:std::string::)?String, Arc<dyn Connector>>::contains_key::<'), contains_key))
+        ex.overrides.append((re.compile(r'^HashMap::<(?:std::string::)?String, Arc<dyn Connector>>::get::<'), map_get))
+        ex.inputs = dict(sel)
+        lb0cell = ex.load(st, arcs[0], ()).cell
+        outs = run_async(ex, st, fn, [Ref(lb0cell, ()), Ref(st.alloc(Opaque('GlobalState', 'state')), ())])
+        if budget and any(o.status == 'cut' and any('budget' in n for n in o.notes) for o, _ in outs):
+            if ex in ck.engines:
+                ck.engines.remove(ex)
+            return None
+        m0 = [sel['lb0_member%d' % i] for i in range(n0)]
+        m1 = [sel['lb1_member%d' % i] for i in range(n1)]
+        direct = z3.Or([k == BV(0, 64) for k in m0])
+        via1 = z3.And(z3.Or([k == BV(1, 64) for k in m0]), z3.Or([k == BV(0, 64) for k in m1]))
+        cyclic = simp(z3.Or(direct, via1))
+        reached = 0
+        for o, r in outs:
+            if o.status != 'returned' or r is None:
+                continue
+            ok, _ = _ok_payload(r)
+            reached += 1
+            ex.prove(o, 'C18/verify/accepted-load-balancer-is-not-its-own-member', z3.Implies(ok, z3.Not(cyclic)))
+            ex.prove(o, 'C18/verify/load-balancer-whose-members-do-not-lead-back-to-it-is-accepted', z3.Implies(z3.Not(cyclic), ok))
+        # the walk visits each of the <= 4 member entries at most once: a path still looping after 14 iterations never ends
+        stuck = [o for o, r in outs if o.status == 'bounded']
+        for o in stuck:
+            ex.prove(o, 'C18/verify/member-graph-walk-terminates', z3.BoolVal(False))
+        if not stuck:
+            ck.add('C18/verify/member-graph-walk-terminates', 'discharged', 'no path reaches the unwinding bound (14 > 4 member entries)', None,
+                   'LoadBalanceConnector::verify graph %d+%d' % (n0, n1))
+        if not reached:
+            ck.add('C18/verify/member-graph/%d+%d/reachability' % (n0, n1), 'vacuous', 'no path through verify returned')
+        ck.absorb(ex, 'LoadBalanceConnector::verify graph %d+%d' % (n0, n1), [o for o, _ in outs])
+        return True
+    mode = {}
     for n0 in (1, 2):
         for n1 in (1, 2):
-            ex = ck.engine(loop_bound=14)
-            ex.benign_havoc = re.compile(BENIGN.pattern + r'|drop')
-            ex.iter_bound = 4
-            ex.eq_bound = 4
-            st = State()
-            sel = {}
-
-            def pick(hint):
-                k = z3.BitVec(hint, 64)
-                ex.assume(st, z3.ULT(k, BV(NB, 64)))
-
-                def at(j, k=k):
-                    r = BV(0, 8)
-                    for pos in range(3):
-                        ch = BV(GRAPH_NAMES[-1][pos], 8)
-                        for i in range(NB - 1):
-                            ch = z3.If(k == BV(i, 64), BV(GRAPH_NAMES[i][pos], 8), ch)
-                        r = z3.If(j == BV(pos, 64), ch, r)
-                    return simp(r)
-                sel[hint] = k
-                return Bytes(at, BV(3, 64), 'string')
-            objs = []
-            for b, cnt in ((0, n0), (1, n1)):
-                ms = [pick('lb%d_member%d' % (b, i)) for i in range(cnt)]
-                objs.append(Agg('LoadBalanceConnector', {fields.index('name'): Bytes.from_py(GRAPH_NAMES[b], 'string'),
-                                                         fields.index('connectors'): SeqV.from_items(ms, 'String', 'vec'),
-                                                         fields.index('idx'): Agg('Atomic', {0: Int(BV(0, 64), 64)}),
-                                                         fields.index('hash_by'): C.mk_option(ex, None)}))
-            objs.append(Agg('DirectConnector', {}))
-            # Arc<dyn Connector> values of the map: pointer to pointer to object
-            arcs = [st.alloc(Ref(st.alloc(o), ())) for o in objs]
-
-            def contains_key(ctx):
-                k = ctx.ex.deref(ctx.st, ctx.args[1])
-                return Bool(simp(z3.Or([_name_eq(k, nm) for nm in GRAPH_NAMES])))
-
-            def map_get(ctx):
-                k = ctx.ex.deref(ctx.st, ctx.args[1])
-                outs = []
-                rest = []
-                for i, nm in enumerate(GRAPH_NAMES):
-                    c = simp(_name_eq(k, nm))
-                    t, f = ctx.ex.branch(ctx.st, c)
-                    if t:
-                        s2 = ctx.st.fork()
-                        ctx.ex.assume(s2, c)
-                        outs.append((s2, C.mk_option(ctx.ex, Ref(arcs[i], ()))))
-                    rest.append(z3.Not(c))
-                t, f = ctx.ex.branch(ctx.st, z3.And(rest))
-                if t:
-                    ctx.ex.assume(ctx.st, z3.And(rest))
-                    outs.append((ctx.st, C.mk_option(ctx.ex, None)))
-                return outs
-            ex.overrides.append((re.compile(r'^HashMap::<(?:std::string::)?String, Arc<dyn Connector>>::contains_key::<'), contains_key))
-            ex.overrides.append((re.compile(r'^HashMap::<(?:std::string::)?String, Arc<dyn Connector>>::get::<'), map_get))
-            ex.inputs = dict(sel)
-            lb0cell = ex.load(st, arcs[0], ()).cell
-            outs = run_async(ex, st, fn, [Ref(lb0cell, ()), Ref(st.alloc(Opaque('GlobalState', 'state')), ())])
-            m0 = [sel['lb0_member%d' % i] for i in range(n0)]
-            m1 = [sel['lb1_member%d' % i] for i in range(n1)]
-            direct = z3.Or([k == BV(0, 64) for k in m0])
-            via1 = z3.And(z3.Or([k == BV(1, 64) for k in m0]), z3.Or([k == BV(0, 64) for k in m1]))
-            cyclic = simp(z3.Or(direct, via1))
-            reached = 0
-            for o, r in outs:
-                if o.status != 'returned' or r is None:
-                    continue
-                ok, _ = _ok_payload(r)
-                reached += 1
-                ex.prove(o, 'C18/verify/accepted-load-balancer-is-not-its-own-member', z3.Implies(ok, z3.Not(cyclic)))
-                ex.prove(o, 'C18/verify/load-balancer-whose-members-do-not-lead-back-to-it-is-accepted', z3.Implies(z3.Not(cyclic), ok))
-            # the walk visits each of the <= 4 member entries at most once: a path still looping after 14 iterations never ends
-            stuck = [o for o, r in outs if o.status == 'bounded']
-            for o in stuck:
-                ex.prove(o, 'C18/verify/member-graph-walk-terminates', z3.BoolVal(False))
-            if not stuck:
-                ck.add('C18/verify/member-graph-walk-terminates', 'discharged', 'no path reaches the unwinding bound (14 > 4 member entries)', None,
-                       'LoadBalanceConnector::verify graph %d+%d' % (n0, n1))
-            if not reached:
-                ck.add('C18/verify/member-graph/%d+%d/reachability' % (n0, n1), 'vacuous', 'no path through verify returned')
-            ck.absorb(ex, 'LoadBalanceConnector::verify graph %d+%d' % (n0, n1), [o for o, _ in outs])
+            # all member choices at once, symbolically; a walk that keeps a visited set forks on every pair of names -- if that
+            # exceeds the path budget the finite family of graphs is gone through one by one instead (same obligations)
+            if run_graphs(n0, n1, None, 400) is None:
+                mode[(n0, n1)] = 'one run per graph'
+                for fixed in itertools.product(range(NB), repeat=n0 + n1):
+                    run_graphs(n0, n1, fixed, 0)
+            else:
+                mode[(n0, n1)] = 'symbolic'
+    ck.notes.append('load-balancer member graphs: %s' % mode)
     ck.bounds['lb-member-graph'] = ('connector map {lb0, lb1 (balancers), up0 (plain)}, lb0 and lb1 with 1..2 members each, every member any of the three names: '
                                     'all %d graphs; longer cycles (three or more balancers) are outside the bound' % sum(3 ** (a + b) for a in (1, 2) for b in (1, 2)))
 
